@@ -148,6 +148,40 @@ def generate(rng, tier):
             'env': {'listing_seed': rng.randint(0, 9999)}}
 
 
+N_SWEEPS_THOROUGH = 300
+SWEEP_RULE = ('for one sampled module (doctests with by-construction outcomes as in the sampled part): *every subset* of its up to '
+              'six enabled doctests that have statements is made to fail (exception at the first statement), one subset per variant, '
+              'through doctest_module(all) or main(); tallies, failed list and exit status must follow')
+
+
+def sweep(rng, h):
+    import copy
+    base = generate(rng, 'thorough')
+    world = base['world']
+    mod = rng.choice(world['modules'])
+    target = mod['relpath']
+    verbose = rng.choice([0, 1, 3])
+    if rng.random() < 0.5:
+        op = {'op': 'runner', 'target': target, 'command': 'all', 'verbose': verbose}
+    else:
+        op = {'op': 'cli', 'argv': ['PATH:' + target, 'all', '--verbose=%d' % verbose]}
+    base['ops'] = [op]
+    cands = []
+    for dtid, dt, m in W.iter_doctests(world):
+        if m is mod and not dt.get('disabled'):
+            pts = common.points_of(world, dtid)
+            if pts:
+                cands.append((dtid, pts[0]['pid']))
+    cands = cands[:6]
+    out = []
+    for mask in range(1 << len(cands)):
+        v = copy.deepcopy(base)
+        v['plan'] = [{'dt': d, 'k': 0, 'pid': pid, 'kind': 'raise', 'exc': 'ValueError', 'msg': 'fault ' + pid}
+                     for j, (d, pid) in enumerate(cands) if mask >> j & 1]
+        out.append(v)
+    return out
+
+
 def _cmd_of(op):
     if op['op'] == 'runner':
         return op['target'], op.get('command', 'all'), op.get('verbose', 0)
